@@ -245,6 +245,31 @@ verif_read(int fd, void *buf, size_t count)
 		}
 		break;
 	}
+	/* VERIF_READ_ERR=K: deliver exactly K bytes of the stream, from then
+	 * on every read() fails with EIO */
+	{
+		static int err_init;
+		static int err_on;
+		static size_t err_at;
+
+		if (!err_init) {
+			const char *e = getenv("VERIF_READ_ERR");
+
+			err_init = 1;
+			if (e != NULL && *e) {
+				err_on = 1;
+				err_at = strtoul(e, NULL, 10);
+			}
+		}
+		if (err_on && fd == 0) {
+			if (stream_pos >= err_at) {
+				errno = EIO;
+				return -1;
+			} else if (err_at - stream_pos < lim) {
+				lim = err_at - stream_pos;
+			}
+		}
+	}
 	if (lim == 0) {
 		return read(fd, buf, 0);
 	}
